@@ -83,3 +83,15 @@ Definition equal_sets_fixed_point (sets : list (list event)) (result : list even
   | [] => true
   | s :: r => if forallb (same_id_set s) r then same_id_set s result else true
   end.
+
+(* deprecated entry point (one list of events): a key with a single distinct event keeps it *)
+Definition single_keys_kept (l result : list event) : bool :=
+  forallb (fun e => match event_tkey e with
+                    | None => true
+                    | Some k =>
+                        existsb (fun e' => match event_tkey e' with
+                                           | Some k' => tkey_eqb k k' && negb (bytes_eqb (e_id e) (e_id e'))
+                                           | None => false
+                                           end) l
+                        || mem_bytes (e_id e) (ids_of result)
+                    end) l.
